@@ -8,6 +8,7 @@ import (
 	"net/url"
 	"strings"
 	"testing"
+	"unicode"
 
 	"github.com/gookit/rux"
 	"pgregory.net/rapid"
@@ -29,7 +30,8 @@ var coreGen = rapid.OneOf(
 	rapid.Just(""),
 )
 
-var wsGen = rapid.SampledFrom([]string{"", "", "", " ", "\t", "\n", "  "})
+// white space as strings.TrimSpace understands it: ASCII and Unicode (U+0085, U+00A0, U+2003, U+3000)
+var wsGen = rapid.SampledFrom([]string{"", "", "", "", " ", "\t", "\n", "  ", "\u00a0", "\u3000", "\u0085", "\u2003 "})
 
 func decorate(t *rapid.T, core string) string {
 	lead := strings.Repeat("/", rapid.IntRange(0, 3).Draw(t, "leadSlashes"))
@@ -128,7 +130,7 @@ func propStatic(t *rapid.T) {
 			q = decorate(t, fullCore)
 			if strict && rapid.Bool().Draw(t, "sameTrail") {
 				// keep the registered trailing slashes so that strict mode can match
-				q = strings.TrimRight(strings.TrimRight(q, " \t\n"), "/") + want[len(strings.TrimRight(want, "/")):]
+				q = strings.TrimRight(strings.TrimRightFunc(q, unicode.IsSpace), "/") + want[len(strings.TrimRight(want, "/")):]
 			}
 		case 3:
 			q = decorate(t, fullCore+rapid.SampledFrom([]string{"/a", "a", ".", " b", "%20"}).Draw(t, "suffix"))
@@ -201,7 +203,7 @@ func propDynamic(t *rapid.T) {
 	reg := decorate(t, core)
 	if strict && strings.HasSuffix(core, "]") {
 		// "[/x]/" is an optional part that is not at the end: invalid under strict mode (C13)
-		reg = strings.TrimRight(strings.TrimRight(reg, " \t\n"), "/")
+		reg = strings.TrimRight(strings.TrimRightFunc(reg, unicode.IsSpace), "/")
 	}
 	if !model.Stable(reg, strict) {
 		t.Skip("unstable")
